@@ -162,7 +162,8 @@ ODone ==
 
 OTrim == IsEvent("Trim") /\ ServerTrim(E.n) /\ Keep
 
-OObserve == IsEvent("Observe") /\ Same(E.r) /\ UNCHANGED vars /\ Keep
+(* C19: the dependency map and the synthetic tags derived from it reflect the stored tasks *)
+OObserve == IsEvent("Observe") /\ Same(E.r) /\ DepMapAsStored(db[E.r], E) /\ UNCHANGED vars /\ Keep
 
 OInstallWS ==
   /\ IsEvent("InstallWS") /\ ~Running(E.r) /\ Observed(E.r)
